@@ -57,7 +57,7 @@ def run(tier, seed):
             loader_files.append(('shipped ' + name, sf))
             sfiles.append((name, sf, theirs))
         fmts = ['I> value = %u', 'x=%x X=%X', '%d %d %d %d %d', '%d %d %d %d %d %d', 'no args', '100%%', '%02u:%02u', '%.4X|%08X', '%c%c',
-                'bad %q', 'E> %s', '%5d|%-5d|', 'tail %']
+                'bad %q', 'E> %s', '%5d|%-5d|', 'tail %', 'from %u%% to %u%%', '%d%%zone %%tj', '%%hhx %x']
         for t in range(20 if thorough else 6):
             strs = []
             for _ in range(rng.randrange(1, 14)):
@@ -168,7 +168,10 @@ def run(tier, seed):
             data = r.bytes()
             model, spec = r.lines(), r.lines()
             try:
-                real = tr.parse_trace_data(memoryview(data), path)
+                with common.deadline(common.call_limit()):
+                    real = tr.parse_trace_data(memoryview(data), path)
+            except common.Hang as e:
+                real = ['<does not return: %s>' % e]
             except Exception as e:  # noqa  -- the decoder has no error path of its own: an exception is an outcome
                 real = ['<%s: %s>' % (type(e).__name__, str(e)[:100])]
             if len(opt_calls) < OPT_N + 20 and rng.random() < (0.6 if mode == 'bad' else 0.1):
